@@ -200,6 +200,10 @@ class State:
             c.key = urwid.connect_signal(self.senders[sender], name, c.fn, darg, **kwargs)
         else:
             c.key = urwid.connect_signal(self.senders[sender], name, c.fn, **kwargs)
+        # the arguments are those given at connect time: what the caller does with its own lists afterwards does not matter
+        for k_ in ("user_args", "weak_args"):
+            if k_ in kwargs:
+                kwargs[k_].append(self.weak.get("w1") if k_ == "weak_args" and "w1" in self.weak else "LATER")
         self.conns[(sender, name)].append(c)
         for fr in self.frames:
             if (fr.sender, fr.name) == (sender, name):
